@@ -29,7 +29,7 @@ fn gen_mn(rng: &mut Rng, big: bool) -> mackay_neal::Config {
 
 pub fn run(ctx: &mut Ctx, _replay: Option<&[String]>) {
     let mut rng = Rng::new(ctx.seed, 16);
-    let n = ctx.scale(400, 6000);
+    let n = ctx.scale(400, 40000);
     for k in 0..n {
         let cfg = gen_mn(&mut rng, k % 6 == 0);
         let seed = rng.next() % 100_000;
@@ -50,7 +50,7 @@ pub fn run(ctx: &mut Ctx, _replay: Option<&[String]>) {
         let t4 = if cfg.backtrack_cols > 0 && cfg.backtrack_trials > 0 { "backtracking-on" } else { "backtracking-off" };
         ctx.emit(&format!("c16 mn {} {}", mn_cfg_str(&cfg), seed), &out, out.starts_with("ok"), &[t1, t2, t3, t4]);
     }
-    for k in 0..ctx.scale(300, 4000) {
+    for k in 0..ctx.scale(300, 30000) {
         let nrows = rng.range(1, if k % 6 == 0 { 30 } else { 10 });
         let ncols = rng.range(1, if k % 6 == 0 { 60 } else { 20 });
         let wc = rng.range(1, 5);
@@ -79,8 +79,8 @@ pub fn run(ctx: &mut Ctx, _replay: Option<&[String]>) {
     // boundary of the seed range: ranges whose seeds ALL fail but whose first seed beyond the range succeeds (search must return
     // nothing), and empty ranges
     let mut boundary = 0;
-    for _ in 0..ctx.scale(400, 4000) {
-        if boundary >= ctx.scale(40, 400) { break; }
+    for _ in 0..ctx.scale(400, 20000) {
+        if boundary >= ctx.scale(40, 2000) { break; }
         let cfg = gen_mn(&mut rng, false);
         // scan 40 consecutive seeds; look for a run of failures followed by a success
         let start0 = rng.next() % 10_000;
@@ -106,7 +106,7 @@ pub fn run(ctx: &mut Ctx, _replay: Option<&[String]>) {
         }
     }
     // parallel seed search (global rayon pool; the pool size is whatever the environment gives)
-    for k in 0..ctx.scale(60, 600) {
+    for k in 0..ctx.scale(60, 3000) {
         let cfg = gen_mn(&mut rng, false);
         let start = rng.next() % 10_000;
         let tries = rng.range(1, 64) as u64;
